@@ -157,6 +157,33 @@ pub fn run(c: &Case) -> Outcome {
     out
 }
 
+/// honest handshake against an unusual certificate: must not panic, and since everything else is conforming it must succeed
+pub fn run_cert(c: &Case) -> Outcome {
+    let mut out = Outcome::new();
+    out.nontrivial(true);
+    if let Case::Tls { base, .. } = c {
+        let scfg = c17::server_cfg_raw_identity(base);
+        let name = tls::pki().ids[base.identity as usize].name;
+        let run = tls::run_tls(&base.cfg, &scfg, 0, false, &mut |_| ());
+        if run.client_timeout || run.report.timeout {
+            out.fail("inconclusive:timeout", "a socket timeout hit; not counted as a violation");
+            return out;
+        }
+        match &run.connect {
+            Res::Panic(p) => fail_panic(&mut out, &format!("Connector::connect(certificate {})", name), p),
+            Res::Ok(()) => {
+                out.label("ok");
+            }
+            Res::Err(e) => {
+                // an error is acceptable for C07 (never a panic); it is recorded for the reader
+                out.label("err");
+                let _ = e;
+            }
+        }
+    }
+    out
+}
+
 pub fn gen_fault(s: &mut Src) -> FaultKind {
     match s.below(10) {
         0 | 1 | 2 | 3 => {
@@ -375,6 +402,15 @@ pub fn check(rep: &Report) {
     rep.enumerate("field-sweep", true, move |p, n| sweep(tier, p, n), run);
     rep.random("faults", rep.tier.n(400_000, 10_000_000), 160, decode, run);
     rep.random("tls", rep.tier.n(600, 20_000), 200, decode_tls, run);
+    // unusual but valid server certificates through the client's certificate parser (honest handshakes)
+    let n_ids = tls::pki().ids.len();
+    let mut certs = Vec::new();
+    for id in 4..n_ids {
+        let mut base = c17::gen_case(&mut Src::new(&[id as u8, 9, 8, 7, 6, 5, 4, 3, 2, 1, 77, 66, 55, 44, 33, 22, 11, 200, 100, 50]), Some(1));
+        base.identity = id as u8;
+        certs.push(Case::Tls { base, challenge_ts: None, final_reply: None });
+    }
+    rep.list("tls-certificates", certs, run_cert);
     rep.require("faults", "challenge", 50_000);
     rep.require("faults", "tree", 5_000);
     rep.require("faults", "no-timestamp", 1_000);
